@@ -406,6 +406,7 @@ def ratesCase : P String := do
 /-! ### State histories (C11 / C17 / C20 setters) -/
 
 structure HState where
+  owner : Nat := 0       -- which of the two solvers the State belongs to
   Y : Mat Float
   K : Mat Float
   P : Mat Float          -- custom rate parameters
@@ -421,6 +422,9 @@ def histCase : P String := do
   let nrx := mech.length
   let rosP ← if integ == 0 then rosParamsP else pure default
   let beP ← if integ == 0 then pure default else beParamsP
+  let integ2 ← nat
+  let rosP2 ← if integ2 == 0 then rosParamsP else pure default
+  let beP2 ← if integ2 == 0 then pure default else beParamsP
   let nops ← nat
   let m := nameMapOf (List.range ns)
   match ProcessSet.build mech m with
@@ -430,6 +434,7 @@ def histCase : P String := do
   | .error e => pure (errStr e)
   | .ok pr =>
     let stages := if integ == 0 then rosP.stages else 1
+    let stages2 := if integ2 == 0 then rosP2.stages else 1
     let fresh : HState := { Y := Array.replicate ncell (Array.replicate ns 0.0), K := Array.replicate ncell (Array.replicate nrx 0.0),
                             P := Array.replicate ncell (Array.replicate nrx 0.0),
                             sc := freshScratch pr.cfg ncell stages 0.0, atol := Array.replicate ns 1.0e-3, rtol := 1.0e-6 }
@@ -441,6 +446,9 @@ def histCase : P String := do
       | "new" =>
         let s ← nat
         store := store.setIfInBounds s (some fresh); outs := outs ++ ["ok"]
+      | "new2" =>
+        let s ← nat
+        store := store.setIfInBounds s (some { fresh with owner := 1, sc := freshScratch pr.cfg ncell stages2 0.0 }); outs := outs ++ ["ok"]
       | "setc" =>
         let s ← nat; let i ← nat; let vals ← flts ncell
         match store.getD s none with
@@ -461,14 +469,15 @@ def histCase : P String := do
       | "garbage" =>
         let s ← nat; let g ← flt
         match store.getD s none with
-        | some st => store := store.setIfInBounds s (some { st with sc := freshScratch pr.cfg ncell stages g }); outs := outs ++ ["ok"]
+        | some st => store := store.setIfInBounds s (some { st with sc := freshScratch pr.cfg ncell (if st.owner == 0 then stages else stages2) g }); outs := outs ++ ["ok"]
         | none => outs := outs ++ ["nostate"]
       | "solve" =>
         let s ← nat; let dt ← flt
         match store.getD s none with
         | some st =>
-          let res := if integ == 0 then rosSolve floatOps floatConsts pr.cfg rosP st.K st.atol st.rtol dt st.Y st.sc 200000
-                     else beSolve (α := Float) floatOps pr.cfg beP st.K st.atol st.rtol dt st.Y st.sc 200000
+          let (ig, rp, bp) := if st.owner == 0 then (integ, rosP, beP) else (integ2, rosP2, beP2)
+          let res := if ig == 0 then rosSolve floatOps floatConsts pr.cfg rp st.K st.atol st.rtol dt st.Y st.sc 200000
+                     else beSolve (α := Float) floatOps pr.cfg bp st.K st.atol st.rtol dt st.Y st.sc 200000
           let Yf := clampNonNeg floatOps res.Y
           store := store.setIfInBounds s (some { st with Y := Yf, sc := res.sc })
           outs := outs ++ [s!"{statusStr res.status} {showF res.finalTime} {showStats res.stats} {showMat Yf}"]
